@@ -27,7 +27,7 @@ ASSUMPTIONS = ['trailing unconnected pin slots (None at the end of a pin list) a
                'substitute is checked by the invariants after the step and the model is re-synchronised from the real object (its rewiring is too rich to predict; its function preservation is C10)']
 EXPECTED_PROBES = ['shared_name', 'hole_filled_by_last', 'restore_mid_history', 'copy_mid_history', 'duplicate_name_rejected', 'explicit_pin', 'fork_squeeze', 'eliminate_spliced', 'eliminate_kept_undriven', 'substitute_done', 'substitute_ignored_input']
 
-KINDS = ['and', 'or', 'nand', 'not', 'buf', 'xor', 'dff', 'latch', 'input', 'output', 'AOI21', 'mux21', 'DFFX1', '__const0__']
+KINDS = ['and', 'or', 'nand', 'not', 'buf', 'xor', 'dff', 'latch', 'input', 'output', 'AOI21', 'mux21', 'DFFX1', '__const0__', 'INPUT', 'OUTPUT', 'SDFFLATCHX1', 'Put', 'DLATCH']
 OPS = ['node', 'node', 'node', 'fork', 'line', 'line', 'line', 'line', 'linex', 'linex', 'rmline', 'rmline', 'rmnode', 'gof', 'io', 'ioset', 'elim', 'subst', 'copy', 'restore', 'dup']
 
 
@@ -74,6 +74,7 @@ class Exec:
         from kyupy.circuit import Circuit
         self.res = res
         self.c = Circuit('h')
+        self.dup_io = False
         self.m = RefGraph()
         self.names = 0
         self.dirty_after_hole = False
@@ -98,7 +99,7 @@ class Exec:
         if kind in ('node', 'fork'):
             self.names += 1
             nk = '__fork__' if kind == 'fork' else KINDS[a % len(KINDS)]
-            name = f'n{self.names}'
+            name = f'n{self.names}' + ['', '', '', '[3]', ' x', '\u00fc', '.q', '/z'][d % 8]
             if b % 5 == 0:      # a fork and a cell may share a name (separate name spaces; both parsers produce this)
                 other = [kk for kk in keys if kk[1] != (nk == '__fork__') and (kk[0], nk == '__fork__') not in m.nodes and '~' not in kk[0]]
                 if other:
@@ -135,7 +136,7 @@ class Exec:
                 res.probe('explicit_pin')
                 if rkey[1]: rpin = 0
                 else:
-                    free = [p for p in range(len(rn['ins']) + 3) if p not in rn['ins']]
+                    free = [p for p in range(len(rn['ins']) + 3) if p not in rn['ins']] + ([40] if 40 not in rn['ins'] and cc % 11 == 0 else [])
                     rpin = free[cc % len(free)]
                 dn = m.nodes[dkey]
                 if dkey[1]: dpin = len(dn['outs'])             # forks: only the next position
@@ -181,7 +182,7 @@ class Exec:
                 m.add_node(name, '__fork__')
             did = 'get_or_add_fork'
         elif kind in ('io', 'ioset'):
-            cand = [kk for kk in keys if kk not in m.io]
+            cand = [kk for kk in keys if kk not in m.io] if e % 9 else list(keys)      # rarely a node is listed as port twice (bench: input(x) output(x))
             if not cand: return None
             key = cand[a % len(cand)]
             if kind == 'io' or not m.io:
